@@ -81,7 +81,11 @@ class FakeDevice:
         srv = self.servers.pop(port, None)
         if srv is not None:
             srv.close()
-            await srv.wait_closed()
+            # Server.wait_closed() (3.12) waits for every accepted connection to end: never wait unboundedly
+            try:
+                await asyncio.wait_for(srv.wait_closed(), 0.2)
+            except asyncio.TimeoutError:
+                pass
 
     async def stop(self):
         for p in list(self.servers):
@@ -188,6 +192,18 @@ class FakeDevice:
                 await writer.drain()
             except (ConnectionResetError, BrokenPipeError):
                 pass
+
+    async def kill_connections(self):
+        """Drop every accepted connection (so a client that leaked a socket cannot disturb the next case)."""
+        for w in list(self._writers):
+            try:
+                w.transport.abort()
+            except Exception:
+                pass
+        for i in range(400):
+            if self.open == 0:
+                break
+            await asyncio.sleep(0 if i < 300 else 0.001)
 
     # -- helpers for tests ----------------------------------------------------------------------
     def reset_log(self):
